@@ -16,7 +16,7 @@ TECHNIQUE = "fault enumeration: each erroneous statement inserted at every line 
 RULE = (
     "hosts: generated valid programs rendered with random blank lines, full-line and end-of-line ';' comments, single- and multi-line '/* */' comments, indentation, strings with escaped quotes, split into .include files.  "
     "Erroneous statements: `lda.w undef_zz`, `.db 1, undef_zz`, `.dw undef_zz` (semantic: inserted wherever the statement is certainly assembled), `lda.q 5`, `lda 5,q`, `.text 'abc` + newline, `.ascii 'abc` + newline, `.text 'abc` at "
-    "end of file (lexical: inserted at every statement boundary, including macro bodies, loops and untaken branches), each with random indentation and an optional trailing comment.  Oracle: the failure text contains "
+    "end of file (lexical: inserted at every statement boundary, including macro bodies, block arguments of macro calls, loops and untaken branches), each with random indentation and an optional trailing comment.  Oracle: the failure text contains "
     "<file>:<zero-based line> followed by a non-digit, with the file that holds the statement, and quotes that line's text; lexical errors give :<col> in the set of defensible columns (bad suffix: the suffix character or the dot; "
     "bad index: the offending character or the comma; unterminated string: the opening quote or the end of the line).  Non-trivial = line > 0 with a comment / blank / multi-line construct before it, or inside an included file; "
     "distinct = distinct (host, fault, position) tuples."
